@@ -187,7 +187,9 @@ class ActionWalker(xtuml.Walker):
         
     def accept_ReturnNode(self, node):
         value = self.accept(node.expression)
-        self.return_value = value.fget()
+        if value is not None:
+            self.return_value = value.fget()
+        
         raise ReturnException()
 
     def accept_BreakNode(self, node):
